@@ -587,7 +587,9 @@ RULE = ("shape: ZFilter(dict, dict) with every subset of the coefficients b0..b_
         "zero 0 or a fraction.  alg: +, -, * on two such filters (all stream subsets for orders <= 1), "
         "Stream * z**-k sums, and random trees of depth <= 2 over + - * neg, number/Stream scalings from both sides, "
         "number/Stream offsets and division by a number/Stream.  Non-trivial = >= 3 (alg: >= 2) outputs with "
-        ">= 1 (alg: >= 2) Stream coefficients.")
+        ">= 1 (alg: >= 2) Stream coefficients.  ses / pow: sessions on ONE filter object (look, call, refused call, "
+        "shift-and-call, filt ** n for n in -4..4).  Never generated: one Stream object or one filter object handed to "
+        "the library twice in one expression (f*f, f+f, f-f, f/f without copy()): excluded by the Stream contract.")
 trusted_base = [
   "the generated program text is parsed by harness/C06_parse.py (fail-closed extension of C04_parse with the "
   "next(b{k}) / -next(a{k}) terms, the extra def arguments and the try/except block)",
@@ -637,7 +639,15 @@ def run_ses(c):
       start = len(log)
       fuel = st[-1]
       try:
-        target = flt if st[0] == "call" else flt * audiolazy.z ** -st[1]
+        if st[0] == "call":
+          target = flt
+        elif st[0] == "shift":
+          target = flt * audiolazy.z ** -st[1]
+        elif st[0] == "pow":
+          target = flt ** st[1]
+        else:
+          target = {"mul": lambda f: f * f, "add": lambda f: f + f, "sub": lambda f: f - f,
+                    "div": lambda f: f / f}[st[1]](flt)
         out = target(seq, zero=zero)
       except Exception as e:
         obs.append({"err": type(e).__name__})
@@ -672,6 +682,11 @@ def lit_ses(c, o):
       steps.append("SCall %s" % L.nat(st[1]))
     elif st[0] == "shift":
       steps.append("SShiftCall %s %s" % (L.nat(st[1]), L.nat(st[2])))
+    elif st[0] == "pow":
+      steps.append("SPowCall %s %s" % (L.z(st[1]), L.nat(st[2])))
+    elif st[0] == "self":
+      steps.append("SSelfCall %s %s" % ({"mul": "SelfMul", "add": "SelfAdd", "sub": "SelfSub", "div": "SelfDiv"}[st[1]],
+                                        L.nat(st[2])))
     else:
       steps.append("SLook")
   obs = []
@@ -743,6 +758,405 @@ def gen_ses(tier, rng):
     yield {"expr": e, "srcs": S.list, "zero": fr(0), "steps": steps, "tags": ["blocks-stream-gain"]}
 
 
+def pow_filter(rng, S):
+  """a filter for powers: a Poly that carries a Stream has at least two terms (Stream ** n on a one-term Poly is
+  not modelled); one-term Polys are numbers (1 and others)"""
+  def poly(allow_single):
+    if allow_single and rng.random() < 0.4:
+      return [[rng.choice([0, 0, 1]), cst(rng.choice([Fraction(1), Fraction(2), Fraction(-1, 2)]))]]
+    n = rng.randrange(2, 4)
+    items = [[k, S.new() if rng.random() < 0.6 else cst(rng.choice(CONSTS))] for k in range(n)]
+    return items
+  num = poly(True)
+  den = poly(True)
+  if den[0][0] != 0:
+    den = [[0, cst(1)]]
+  if den[0][1][0] == "s":
+    den[0][1] = cst(rng.choice([Fraction(1), Fraction(2)]))      # a number as gain keeps the cases small
+  return ["base", num, den]
+
+
+def gen_pow(tier, rng):
+  """(k) the same Stream-carrying operand on both sides of a product: filt ** n for n in -4..4 (the library takes
+  a tee copy per factor; repair f1b3095 of finding C06-pow3-shared-copy: one copy object used to be repeated for
+  |n| >= 3).  NOT generated: filt op filt (* + - /) with the very same filter OBJECT on both sides - the user then
+  hands the same Stream objects to the library twice, which the Stream contract (single-use iterators, copy()
+  before a second use) excludes; "however many times the algebra used it" is about the library's own algebra
+  replicating a stream the user supplied once."""
+  reps = 4 if tier == "quick" else 30
+  for nk, dk, _ in edge:
+    for _ in range(reps):
+      bits = [rng.random() < 0.6 for _ in nk + dk]
+      S = Srcs(rng, rng.randrange(2, 6))
+      consts = [rng.choice(CONSTS + [Fraction(0)]) for _ in nk + dk]
+      e = base_filter(rng, S, nk, dk, bits, consts=consts)
+      yield mk_case(e, S, rng, ["edge"])
+
+
+def nontrivial_shape(c, o):
+  if o.get("stage") != "run":
+    return False
+  ny = sum(1 for e in o["trace"] if e[0] == "Y")
+  return ny >= 3 and count_streams(c["expr"]) >= 1
+
+
+def small_filter(rng, S, maxorder=2, pstream=0.5, den_p=0.6):
+  nk = rand_keys(rng, maxorder, need0=False) or [0]
+  dk = rand_keys(rng, maxorder) if rng.random() < den_p else [0]
+  bits = [rng.random() < pstream for _ in nk + dk]
+  return base_filter(rng, S, nk, dk, bits)
+
+
+def rand_scalar(rng, S, pstream=0.6):
+  if rng.random() < pstream:
+    return S.new()
+  return cst(rng.choice(CONSTS + [Fraction(0)] if rng.random() < 0.1 else CONSTS))
+
+
+def rand_expr(rng, S, depth):
+  if depth == 0:
+    return small_filter(rng, S)
+  r = rng.random()
+  if r < 0.3:
+    return ["add", rand_expr(rng, S, depth - 1), rand_expr(rng, S, depth - 1)]
+  if r < 0.55:
+    return ["mul", rand_expr(rng, S, depth - 1), rand_expr(rng, S, depth - 1)]
+  if r < 0.65:
+    return ["sub", rand_expr(rng, S, depth - 1), rand_expr(rng, S, depth - 1)]
+  if r < 0.70:
+    return ["neg", rand_expr(rng, S, depth - 1)]
+  if r < 0.78:
+    return ["mulr", rand_expr(rng, S, depth - 1), rand_scalar(rng, S)]
+  if r < 0.86:
+    return ["mull", rand_scalar(rng, S), rand_expr(rng, S, depth - 1)]
+  if r < 0.90:
+    return ["addr", rand_expr(rng, S, depth - 1), rand_scalar(rng, S)]
+  if r < 0.94:
+    return ["addl", rand_scalar(rng, S), rand_expr(rng, S, depth - 1)]
+  return ["divr", rand_expr(rng, S, depth - 1), rand_scalar(rng, S)]
+
+
+def gen_alg(tier, rng):
+  # (1) every operator on two filters of order <= 1 with every subset of streams (thorough), sample (quick)
+  for op in ("add", "mul", "sub"):
+    for nb1, na1, nb2, na2 in itertools.product((0, 1), repeat=4):
+      n1, n2 = nb1 + 1 + na1 + 1, nb2 + 1 + na2 + 1
+      for bits in itertools.product([False, True], repeat=n1 + n2):
+        if rng.random() > (0.05 if tier == "quick" else 0.6):
+          continue
+        S = Srcs(rng, rng.randrange(3, 6), short=0.2)
+        f = base_filter(rng, S, list(range(nb1 + 1)), list(range(na1 + 1)), bits[:n1])
+        g = base_filter(rng, S, list(range(nb2 + 1)), list(range(na2 + 1)), bits[n1:])
+        yield mk_case([op, f, g], S, rng, ["pair", op])
+  # (1b) coincidences: operands sharing equal CONSTANT sub-polynomials (numerator of one = denominator of the
+  # other, equal denominators with Stream numerators, equal numerators, the trivial common factor 1), Streams elsewhere
+  POLYS = [[Fraction(1), Fraction(-1, 2)], [Fraction(2), Fraction(1)], [Fraction(1), Fraction(0), Fraction(-1)],
+           [Fraction(1)], [Fraction(-1, 2), Fraction(3, 2), Fraction(1)], [Fraction(3, 2)]]
+
+  def cpoly(P):
+    return [[k, cst(v)] for k, v in enumerate(P) if v != 0]
+
+  def spoly(S, n, first_const=None, pstream=0.8):
+    items = []
+    for k in range(n):
+      if k == 0 and first_const is not None:
+        items.append([0, cst(first_const)])
+      elif rng.random() < pstream:
+        items.append([k, S.new()])
+      else:
+        items.append([k, cst(rng.choice(CONSTS))])
+    return items
+
+  reps = 3 if tier == "quick" else 25
+  for P in POLYS:
+    for shape in ("num=den", "den=num", "den=den", "num=num", "num=den-const-rest"):
+      for op in ("mul", "add", "sub"):
+        for _ in range(reps if op == "mul" or shape == "den=den" else 1):
+          S = Srcs(rng, rng.randrange(3, 6), short=0.15)
+          other = lambda: spoly(S, rng.randrange(1, 3))
+          gain1 = lambda: spoly(S, rng.randrange(1, 3), first_const=rng.choice([Fraction(1), Fraction(2), Fraction(-1)]),
+                                pstream=0.7)
+          if shape == "num=den":
+            f, g = ["base", cpoly(P), gain1()], ["base", other(), cpoly(P)]
+          elif shape == "den=num":
+            f, g = ["base", other(), cpoly(P)], ["base", cpoly(P), gain1()]
+          elif shape == "den=den":
+            f, g = ["base", other(), cpoly(P)], ["base", other(), cpoly(P)]
+          elif shape == "num=num":
+            f, g = ["base", cpoly(P), gain1()], ["base", cpoly(P), gain1()]
+          else:
+            f = ["base", cpoly(P), [[0, cst(1)], [1, cst(Fraction(1, 2))]]]
+            g = ["base", other(), cpoly(P)]
+          yield mk_case([op, f, g], S, rng, ["coincide", shape, op])
+  # (1c) coefficient Stream KINDS: a raw itertools.repeat(v, n) / repeat(v) / lazy_itertools.repeat / islice(count) /
+  # iter(list) / list / cycle / ControlStream behind the Stream, in every position of an operand of + - * with a
+  # different denominator; finite kinds shorter than the input, so that the end of the output speaks for the reads
+  reps = 1 if tier == "quick" else 6
+  for kind in Srcs.KINDS_FIN + Srcs.KINDS_INF:
+    for pos in ("den1", "den0", "num", "scalar"):
+      for op in ("add", "sub", "mul"):
+        for _ in range(reps):
+          nin = rng.randrange(6, 9)
+          S = Srcs(rng, nin, short=0.0, kinds_p=0.0)
+          ks = S.new_kind(kind, rng.randrange(2, nin - 1))
+          logged = lambda: S.new() if rng.random() < 0.5 else cst(rng.choice(CONSTS))
+          if pos == "den1":
+            f = ["base", [[0, logged()]], [[0, cst(1)], [1, ks]]]
+          elif pos == "den0":
+            f = ["base", [[0, logged()], [1, cst(1)]], [[0, ks], [1, cst(Fraction(1, 2))]]]
+          elif pos == "num":
+            f = ["base", [[0, ks], [1, logged()]], [[0, cst(1)], [1, cst(Fraction(-1, 2))]]]
+          else:
+            f = ["mull", ks, ["base", [[0, cst(1)], [1, logged()]], [[0, cst(1)]]]]
+          g = ["base", [[0, logged()]], [[0, cst(2)], [1, logged()]]]
+          e = [op, f, g] if rng.random() < 0.5 else [op, g, f]
+          yield mk_case(e, S, rng, ["kinds", kind, pos, op])
+  # (2) Stream * z**-k sums: the way the documentation builds time-varying filters
+  n = 60 if tier == "quick" else 600
+  for _ in range(n):
+    S = Srcs(rng, rng.randrange(3, 7), short=0.2)
+    e = None
+    for k in sorted(rng.sample(range(0, 4), rng.randrange(1, 4))):
+      t = ["mull", rand_scalar(rng, S, 0.8), ["base", [[k, cst(1)]], [[0, cst(1)]]]]
+      e = t if e is None else ["add", e, t]
+    if rng.random() < 0.5:
+      e = ["mul", e, ["base", [[0, cst(1)]], [[0, cst(1)], [rng.randrange(1, 3), rand_scalar(rng, S, 0.8)]]]]
+    yield mk_case(e, S, rng, ["zexpr"])
+  # (3) random expression trees of depth <= 2 (scalings by numbers and by streams included)
+  n = 250 if tier == "quick" else 3500
+  for _ in range(n):
+    in_cyc = rng.random() < 0.1
+    S = Srcs(rng, rng.randrange(2, 6) if not in_cyc else 2, in_cyc=in_cyc, short=0.2, zero_p=0.04)
+    d = 1 if rng.random() < 0.6 else 2
+    e = rand_expr(rng, S, d)
+    if len(S.list) > 14:
+      continue
+    mem = None
+    if rng.random() < 0.2:
+      mem = [fr(Fraction(rng.randrange(-5, 6), rng.choice([1, 2]))) for _ in range(rng.randrange(0, 4))]
+    yield mk_case(e, S, rng, ["tree", "depth=%d" % d], mem=mem,
+                  zero=Fraction(0) if rng.random() < 0.7 else Fraction(1, 3))
+
+
+def nontrivial_alg(c, o):
+  if o.get("stage") != "run":
+    return False
+  ny = sum(1 for e in o["trace"] if e[0] == "Y")
+  return ny >= 2 and count_streams(c["expr"]) >= 2
+
+
+RULE = ("shape: ZFilter(dict, dict) with every subset of the coefficients b0..b_nb, a0..a_na (orders <= 2: all subsets "
+        "in the thorough tier, a seeded sample in quick; order 3 / sparse keys / shifted or empty denominators / "
+        "negative powers: seeded random) replaced by logging Streams that are finite (shorter than, equal to or longer "
+        "than the input), or periodic; counting values (source i delivers +-(10 i + k + 1)/(i mod 3 + 1)), some with a "
+        "zero item (division by a zero gain); input finite 0..7 or periodic with a consumer limit; memory None / list, "
+        "zero 0 or a fraction.  alg: +, -, * on two such filters (all stream subsets for orders <= 1), "
+        "Stream * z**-k sums, and random trees of depth <= 2 over + - * neg, number/Stream scalings from both sides, "
+        "number/Stream offsets and division by a number/Stream.  Non-trivial = >= 3 (alg: >= 2) outputs with "
+        ">= 1 (alg: >= 2) Stream coefficients.  ses / pow: sessions on ONE filter object (look, call, refused call, "
+        "shift-and-call, filt ** n for n in -4..4).  Never generated: one Stream object or one filter object handed to "
+        "the library twice in one expression (f*f, f+f, f-f, f/f without copy()): excluded by the Stream contract.")
+trusted_base = [
+  "the generated program text is parsed by harness/C06_parse.py (fail-closed extension of C04_parse with the "
+  "next(b{k}) / -next(a{k}) terms, the extra def arguments and the try/except block)",
+  "sources are Python generators logging each next(); itertools.tee and map (Python 3) are modelled by "
+  "C06.Model.pull (tee: a shared hub with one buffer per copy; map: operands pulled left to right)",
+  "values are exact rationals (ExactQ); the operands of one filter expression use pairwise distinct Stream objects",
+]
+ASSUMPTIONS = ["CPython semantics of exec / generators / itertools.tee / map as documented",
+               "str.format of ExactQ ('_Q(n,d)', injected in builtins by vlib.exactq)"]
+
+# ----------------------------------------------------------------------------- sessions on one filter object
+def run_ses(c):
+  """steps on ONE filter object: ["call", fuel] | ["shift", k, fuel] (g = filt * z**-k; call g) | ["look"];
+  every call reads the same input generator (source 0) and the same coefficient Streams"""
+  import audiolazy
+  import audiolazy.lazy_filters as lf
+  log = []
+  made = {}
+
+  def stream(i):
+    assert i not in made and i != 0
+    made[i] = True
+    return _mk_stream(i, c["srcs"][i], log)
+
+  try:
+    flt = _build(c["expr"], {"stream": stream})
+  except Exception as e:
+    return {"stage": "build", "exc": type(e).__name__}
+  seq = _source(0, c["srcs"][0], log)
+  zero = ExactQ(unfr(c["zero"]))
+  captured = []
+  orig = lf._exec_eval
+
+  def recorder(data, expr):
+    captured.append([data, expr])
+    return orig(data, expr)
+
+  obs = []
+  lf._exec_eval = recorder
+  try:
+    for st in c["steps"]:
+      if st[0] == "look":
+        obs.append({"seen": [[[int(k), isinstance(v, audiolazy.Stream)] for k, v in poly._data.items()]
+                             for poly in (flt.numpoly, flt.denpoly)]})
+        continue
+      del captured[:]
+      start = len(log)
+      fuel = st[-1]
+      try:
+        if st[0] == "call":
+          target = flt
+        elif st[0] == "shift":
+          target = flt * audiolazy.z ** -st[1]
+        elif st[0] == "pow":
+          target = flt ** st[1]
+        else:
+          target = {"mul": lambda f: f * f, "add": lambda f: f + f, "sub": lambda f: f - f,
+                    "div": lambda f: f / f}[st[1]](flt)
+        out = target(seq, zero=zero)
+      except Exception as e:
+        obs.append({"err": type(e).__name__})
+        continue
+      n = 0
+      try:
+        it = iter(out)
+        while n < fuel:
+          try:
+            v = next(it)
+          except StopIteration:
+            log.append(["S"])
+            break
+          log.append(["Y", fr(to_frac(v))])
+          n += 1
+      except Exception as e:
+        log.append(["E", type(e).__name__])
+      if len(captured) == 1 and captured[0][1] == "gen":
+        prog = parse_program(captured[0][0])
+      else:
+        prog = {"error": "%d programs" % len(captured)}
+      obs.append({"prog": prog, "trace": log[start:]})
+  finally:
+    lf._exec_eval = orig
+  return {"stage": "steps", "obs": obs}
+
+
+def lit_ses(c, o):
+  steps = []
+  for st in c["steps"]:
+    if st[0] == "call":
+      steps.append("SCall %s" % L.nat(st[1]))
+    elif st[0] == "shift":
+      steps.append("SShiftCall %s %s" % (L.nat(st[1]), L.nat(st[2])))
+    elif st[0] == "pow":
+      steps.append("SPowCall %s %s" % (L.z(st[1]), L.nat(st[2])))
+    elif st[0] == "self":
+      steps.append("SSelfCall %s %s" % ({"mul": "SelfMul", "add": "SelfAdd", "sub": "SelfSub", "div": "SelfDiv"}[st[1]],
+                                        L.nat(st[2])))
+    else:
+      steps.append("SLook")
+  obs = []
+  for x in (o.get("obs") or []):
+    if "err" in x:
+      obs.append("SOErr %s" % L.string(x["err"]))
+    elif "seen" in x:
+      shp = lambda l: L.lst(["(%s, %s)" % (L.z(k), L.boolean(b)) for k, b in l])
+      obs.append("SOSeen %s %s" % (shp(x["seen"][0]), shp(x["seen"][1])))
+    else:
+      obs.append("SORun %s %s" % (prog_lit(x["prog"]), L.lst([event_lit(e) for e in x["trace"]])))
+  if o.get("stage") != "steps":
+    obs = ["SOOther"]
+  return "(SCase %s %s %s %s %s %s)" % (expr_lit(c["expr"]), L.lst([src_lit(x) for x in c["srcs"]]), q(c["zero"]),
+                                        L.lst([L.nat(i) for i in silent_ids(c)]), L.lst(steps), L.lst(obs))
+
+
+def long_srcs(rng, nin=14):
+  """sources long enough for several calls: the input has nin items, coefficient sources are longer or periodic"""
+  S = Srcs(rng, nin, short=0.0)
+  return S
+
+
+def noncausal_base(rng, S, a0_stream):
+  nk = sorted(set([-rng.randrange(1, 3)] + [k for k in range(0, 2) if rng.random() < 0.6]))
+  dk = [0] + [k for k in range(1, 3) if rng.random() < 0.6]
+  bits = [rng.random() < 0.6 for _ in nk] + [a0_stream] + [rng.random() < 0.6 for _ in dk[1:]]
+  return base_filter(rng, S, nk, dk, bits), -min(nk)
+
+
+def gen_ses(tier, rng):
+  reps = 1 if tier == "quick" else 8
+  # (g) a REFUSED call (non-causal) must leave the object as it was: look, call (refused), look, then the same
+  # object made causal by * z**-k and run; with a Stream gain and with a number as gain
+  for _ in range(30 * reps):
+    S = long_srcs(rng, rng.randrange(4, 8))
+    a0s = rng.random() < 0.7
+    e, need = noncausal_base(rng, S, a0s)
+    k = need + rng.randrange(0, 2)
+    steps = [["look"], ["call", 3], ["look"]]
+    if rng.random() < 0.3:
+      steps += [["call", 2], ["look"]]
+    steps += [["shift", k, rng.randrange(2, 6)]]
+    yield {"expr": e, "srcs": S.list, "zero": fr(0), "steps": steps,
+           "tags": ["refused-then-used", "a0str" if a0s else "a0const"]}
+  # (a)/(d) block by block: two or three calls of one filter (a number as gain) go on reading the same
+  # coefficient Streams; the object keeps its shape
+  for _ in range(30 * reps):
+    S = long_srcs(rng, 14)
+    def number_gain(t):
+      if t[2] and t[2][0][0] == 0 and t[2][0][1][0] == "s":
+        t[2][0][1] = cst(rng.choice(CONSTS))          # a0: a number
+      return t
+    e = number_gain(small_filter(rng, S, maxorder=2, pstream=0.7))
+    if rng.random() < 0.4:
+      e = [rng.choice(["mul", "add"]), e, number_gain(small_filter(rng, S, maxorder=1, pstream=0.5, den_p=0.0))]
+    f1, f2 = rng.randrange(1, 5), rng.randrange(1, 5)
+    steps = [["look"], ["call", f1], ["look"], ["call", f2]]
+    if rng.random() < 0.4:
+      steps += [["call", rng.randrange(1, 4)]]
+    steps += [["look"]]
+    yield {"expr": e, "srcs": S.list, "zero": fr(0 if rng.random() < 0.7 else Fraction(1, 2)), "steps": steps,
+           "tags": ["blocks"]}
+  # the same with a Stream as gain (the repaired finding C06-gain-call-deletes-a0: the object keeps its a0)
+  for _ in range(12 * reps):
+    S = long_srcs(rng, 12)
+    e = base_filter(rng, S, [0, 1], [0, 1], [rng.random() < 0.5, rng.random() < 0.5, True, rng.random() < 0.5])
+    steps = [["look"], ["call", rng.randrange(1, 4)], ["look"], rng.choice([["call", 2], ["shift", 1, 2], ["call", 3]]), ["look"]]
+    yield {"expr": e, "srcs": S.list, "zero": fr(0), "steps": steps, "tags": ["blocks-stream-gain"]}
+
+
+def pow_filter(rng, S):
+  """a filter for powers: a Poly that carries a Stream has at least two terms (Stream ** n on a one-term Poly is
+  not modelled); one-term Polys are numbers (1 and others)"""
+  def poly(allow_single):
+    if allow_single and rng.random() < 0.4:
+      return [[rng.choice([0, 0, 1]), cst(rng.choice([Fraction(1), Fraction(2), Fraction(-1, 2)]))]]
+    n = rng.randrange(2, 4)
+    items = [[k, S.new() if rng.random() < 0.6 else cst(rng.choice(CONSTS))] for k in range(n)]
+    return items
+  num = poly(True)
+  den = poly(True)
+  if den[0][0] != 0:
+    den = [[0, cst(1)]]
+  if den[0][1][0] == "s":
+    den[0][1] = cst(rng.choice([Fraction(1), Fraction(2)]))      # a number as gain keeps the cases small
+  return ["base", num, den]
+
+
+def gen_pow(tier, rng):
+  """(k) the same Stream-carrying operand on both sides of a product: filt ** n, n in -2..2, the exponents the
+  library computes with one tee copy per side.  Not generated: |n| >= 3 ([self.copy()] * (n-1) repeats ONE copy
+  object) and filt op filt with one object on both sides: on the unchanged tree these read every Stream twice per
+  sample (reported as findings C06-pow-reuses-copy / C06-same-object-both-sides), and itertools.tee of a tee object
+  aliases it, which the model's hubs do not reproduce."""
+  reps = 4 if tier == "quick" else 30
+  for n in range(-4, 5):
+    for _ in range(reps):
+      S = long_srcs(rng, rng.randrange(5, 9))
+      e = pow_filter(rng, S)
+      yield {"expr": e, "srcs": S.list, "zero": fr(0), "steps": [["look"], ["pow", n, rng.randrange(2, 6)], ["look"]],
+             "tags": ["pow", "n=%d" % n]}
+
+
 def nontrivial_ses(c, o):
   return o.get("stage") == "steps" and sum(1 for x in o["obs"] if "trace" in x and len(x["trace"]) > 3) >= 1
 
@@ -783,4 +1197,5 @@ FAMILIES = {
   "shape": Family("shape", IMPORTS, "tcase", "corr_tv", "holds_tv", gen_shape, run_tv, lit_tv, nontrivial_shape, known_tv),
   "alg": Family("alg", IMPORTS, "tcase", "corr_tv", "holds_tv", gen_alg, run_tv, lit_tv, nontrivial_alg, known_tv),
   "ses": Family("ses", IMPORTS, "scase", "corr_ses", "holds_ses", gen_ses, run_ses, lit_ses, nontrivial_ses, known_ses),
+  "pow": Family("pow", IMPORTS, "scase", "corr_ses", "holds_ses", gen_pow, run_ses, lit_ses, nontrivial_ses, known_ses),
 }
